@@ -134,6 +134,14 @@ class Dispatch:
             hooks["ext:data.pop"] = pop_hook
             it = Interp(repo, cell, domains, hooks=hooks)
             o = Obj(cls)
+            # the constructor may build dispatch tables (`self._readers = {252: self.readInt8, ...}`): run it
+            try:
+                kk, init = repo.find_method(cls, "__init__")
+                if init is not None:
+                    it.call_function(init, kk, ("obj", o), [_opaque("tokdict")], {}, depth=0)
+            except Exception:
+                pass
+            trace["t"][:] = []
             o.fields["tokenDictionary"] = _opaque("tokdict")
             for f_, v_ in self.fields.items():
                 o.fields[f_] = v_
